@@ -148,13 +148,19 @@ class Runtime:
         return getattr(self.tls, "t", 1)
 
     def ip_raw(self) -> Any:
+        """Ids the library regards as in progress for the current flow of control (read-only projection)."""
         try:
-            cur = self.ic._checkers._IN_PROGRESS.get()
+            chk = self.ic._checkers
+            cur = chk._IN_PROGRESS.get()
         except Exception:  # pragma: no cover
             return "n/a"
         if cur is None:
             return ()
         try:
+            if isinstance(cur, tuple) and len(cur) == 2 and isinstance(cur[1], (set, frozenset)):
+                # the set is tagged with the flow that owns it: ask the library which set this flow uses
+                getter = getattr(chk, "_get_in_progress", None)
+                cur = getter() if getter is not None else cur[1]
             out = []
             for x in cur:
                 if isinstance(x, tuple) and x:
@@ -167,7 +173,7 @@ class Runtime:
     def emit(self, e: str, id_: int = 0, o: int = 0, a: int = 0, v: int = 0, cls: str = "", old: Any = (),
              res: int = 0) -> None:
         ev = {"e": e, "t": self.task(), "id": id_, "o": o, "a": a, "v": v, "cls": cls, "old": list(old),
-              "res": res, "ip": self.ip_raw()}
+              "res": res, "ip": "n/a" if e in ("res", "throw") else self.ip_raw()}
         self.log.append(ev)
         if len(self.log) > self.max_events:
             raise HarnessAbort("watchdog: too many events")
@@ -297,8 +303,8 @@ class Runtime:
             if op["op"] == "call":
                 self.do_call(op, u)
             elif op["op"] == "spawn":
-                self.emit("spawn", op["f"], 0, op["a"])
                 self.sched.spawn(op["f"], copy_ctx=(op["a"] == 1))
+                self.emit("spawn", op["f"], 0, op["a"])
             elif op["op"] == "await":
                 raise RuntimeError("await in a sync script")
 
@@ -310,10 +316,10 @@ class Runtime:
                 await self.do_call_async(op, u)
             elif op["op"] == "await":
                 self.emit("susp", 0)
-                await Susp()
+                await self.sched.suspension()
             elif op["op"] == "spawn":
-                self.emit("spawn", op["f"], 0, op["a"])
                 self.sched.spawn(op["f"], copy_ctx=(op["a"] == 1))
+                self.emit("spawn", op["f"], 0, op["a"])
 
     def resolve(self, f: int, o: int) -> Any:
         fn = self.prog["fn"][f - 1]
